@@ -328,6 +328,7 @@ func init() {
 		diff("URL.ForceQuery", origURL.ForceQuery, s.ForceQuery)
 		diff("URL", origURL.String(), s.URL)
 		diff("ProtoMajor.Minor", [2]int{orig.ProtoMajor, orig.ProtoMinor}, [2]int{s.ProtoMajor, s.ProtoMinor})
+		diff("Proto", orig.Proto, s.Proto)
 		diff("Host", orig.Host, s.Host)
 		diff("ContentLength", orig.ContentLength, s.ContentLength)
 		diff("TransferEncoding", orig.TransferEnc, s.TransferEnc)
@@ -355,7 +356,7 @@ func init() {
 		Rule: "11 client wire forms (protocol x codec x compression incl. alt/rev) x 3 target-protocol sets x 2 codec sets that accept the client's triple, and 12 unmatched request classes with an unknown-endpoint handler; " +
 			"up to D deviations: 2 extra headers out of 23 (control headers of every protocol, multi-valued, raw lower-case keys, Content-Length), 9 query strings incl. bad escapes and ForceQuery, 7 arbitrary bodies, " +
 			"declared/unknown/zero content length, body segmentation, request trailers (announced keys, values that appear at body EOF), HTTP/2, 7 downstream reply scripts. Non-trivial = forwarded request carrying at least one header that the transcoding path strips.",
-		Assume:       []string{"Proto is compared numerically (major, minor); the request context is exempt"},
+		Assume:       []string{"the request context is exempt"},
 		Scenarios:    []Scenario{{Name: "forwarding", Fn: scn, QuickBound: 2, ThoroughBound: 3}},
 		RequireNotes: []string{"forwarded", "not-forwarded"},
 		MinOutcomes:  6,
